@@ -608,6 +608,7 @@ static void wl_an_read(const char *p) { prep(wl_an_write, p); wl_an_read_body(p)
 
 #include "drive_fault_wl2.h"
 #include "drive_fault_wl3.h"
+#include "drive_fault_wl4.h"
 
 static struct { const char *name; void (*fn)(const char *); } WL[] = {
     {"h_put", wl_h_put}, {"h_putc", wl_h_putc}, {"h_put16", wl_h_put16}, {"h_linked", wl_h_linked},
@@ -621,6 +622,8 @@ static struct { const char *name; void (*fn)(const char *); } WL[] = {
     {"gr_more", wl_gr_more}, {"gr_inq", wl_gr_inq}, {"gr_inq1", wl_gr_inq1},
     {"sd_scalar", wl_sd_scalar}, {"sd_sread", wl_sd_sread}, {"nc_write", wl_nc_write}, {"nc_update", wl_nc_update},
     {"nc_read", wl_nc_read}, {"h_append", wl_h_append}, {"v_append", wl_v_append}, {"sd_append", wl_sd_append},
+    {"sd_wrinq", wl_sd_wrinq}, {"gr_wrinq", wl_gr_wrinq}, {"v_wrinq", wl_v_wrinq}, {"h_two", wl_h_two},
+    {"sd_two", wl_sd_two}, {"v_two", wl_v_two},
 };
 #define NWL ((int)(sizeof WL / sizeof WL[0]))
 
